@@ -240,6 +240,13 @@ func (t *Teamserver) ListenerEdit(Type int, Config any) {
 					h.Config.Uris = Config.(handlers.HTTPConfig).Uris
 					h.Config.Proxy = Config.(handlers.HTTPConfig).Proxy
 					h.Config.BehindRedir = t.Profile.Config.Demon.TrustXForwardedFor
+
+					// save the edited config, or the old one comes back at the next start
+					if Name, _, ConfigJson := t.listenerRecord(handlers.LISTENER_HTTP, h); len(ConfigJson) > 0 {
+						if err := t.DB.ListenerUpdate(Name, string(ConfigJson)); err != nil {
+							logger.Error(fmt.Sprintf("Failed to update Listener \"%s\": %v", Name, err))
+						}
+					}
 				}
 			}
 
@@ -256,6 +263,23 @@ func (t *Teamserver) ListenerEdit(Type int, Config any) {
 // ListenerAdd
 // creates a package for the client that a new listener has been added.
 func (t *Teamserver) ListenerAdd(FromUser string, Type int, Config any) packager.Package {
+
+	var Name, Protocol, ConfigJson = t.listenerRecord(Type, Config)
+
+	// just add the listener to the sqlite db if we got any config provided
+	if len(ConfigJson) > 0 {
+		err := t.DB.ListenerAdd(Name, Protocol, string(ConfigJson))
+		if err != nil {
+			logger.Error(fmt.Sprintf("Failed to add Listener \"%s\": %v", Name, err))
+		}
+	}
+
+	return events.Listener.ListenerAdd(FromUser, Type, Config)
+}
+
+// listenerRecord
+// returns the name, the protocol and the json config under which a listener is saved in the database.
+func (t *Teamserver) listenerRecord(Type int, Config any) (string, string, []byte) {
 
 	var (
 		Name       string
@@ -359,15 +383,7 @@ func (t *Teamserver) ListenerAdd(FromUser string, Type int, Config any) packager
 
 	}
 
-	// just add the listener to the sqlite db if we got any config provided
-	if len(ConfigJson) > 0 {
-		err := t.DB.ListenerAdd(Name, Protocol, string(ConfigJson))
-		if err != nil {
-			logger.Error(fmt.Sprintf("Failed to add Listener \"%s\": %v", Name, err))
-		}
-	}
-
-	return events.Listener.ListenerAdd(FromUser, Type, Config)
+	return Name, Protocol, ConfigJson
 }
 
 // ListenerServiceExc2Add
